@@ -88,6 +88,132 @@ class _Canon(ast.NodeTransformer):
         return node
 
 
+class _AliasInline:
+    """Uses of a local that is assigned exactly once, by a plain `v = E` whose E is a side-effect-free, stable expression, are
+    replaced by E (the assignment stays).  Stable: built from constants, enumeration members, parameters / locals that are
+    never (re)assigned afterwards, attribute chains over those whose attribute name is stored nowhere in the function,
+    comparisons, `not`, and/or.  No calls, no subscripts.  Hoisting such an expression into a local - or not - is then
+    invisible to every rule (`stop = option == STOP`, `policy = self._attribute_policy`, `kind = obj._object_type`)."""
+
+    def run(self, tree):
+        for fn in [n for n in ast.walk(tree) if isinstance(n, (ast.FunctionDef, ast.AsyncFunctionDef))]:
+            self.function(fn)
+        return tree
+
+    @staticmethod
+    def _local_nodes(fn):
+        st = list(fn.body)
+        while st:
+            n = st.pop()
+            yield n
+            for c in ast.iter_child_nodes(n):
+                if isinstance(c, (ast.FunctionDef, ast.AsyncFunctionDef, ast.ClassDef, ast.Lambda)):
+                    continue
+                st.append(c)
+
+    @staticmethod
+    def _wanted(e):
+        """only hoisted conditions (comparisons, and/or/not) and aliases of the object's own fields (self.<...>): locals that name
+        a part of a parameter (`value = key.key_block.key_value`) carry meaning for the converter rules and stay"""
+        if isinstance(e, (ast.Compare, ast.BoolOp)) or (isinstance(e, ast.UnaryOp) and isinstance(e.op, ast.Not)):
+            return True
+        x = e
+        while isinstance(x, ast.Attribute):
+            x = x.value
+        return isinstance(e, ast.Attribute) and isinstance(x, ast.Name) and x.id == 'self'
+
+    def function(self, fn):
+        stores = {}          # name -> count of binding occurrences
+        stored_attrs = set()
+        nested_names = set()
+        for n in ast.walk(fn):
+            if n is not fn and isinstance(n, (ast.FunctionDef, ast.AsyncFunctionDef, ast.ClassDef, ast.Lambda)):
+                for x in ast.walk(n):
+                    if isinstance(x, ast.Name):
+                        nested_names.add(x.id)
+        for n in self._local_nodes(fn):
+            if isinstance(n, ast.Name) and isinstance(n.ctx, (ast.Store, ast.Del)):
+                stores[n.id] = stores.get(n.id, 0) + 1
+            elif isinstance(n, ast.ExceptHandler) and n.name:
+                stores[n.name] = stores.get(n.name, 0) + 1
+            elif isinstance(n, ast.Attribute) and isinstance(n.ctx, (ast.Store, ast.Del)):
+                stored_attrs.add(n.attr)
+            elif isinstance(n, (ast.Global, ast.Nonlocal)):
+                for x in n.names:
+                    stores[x] = 99
+            elif isinstance(n, ast.Call) and isinstance(n.func, ast.Name) and n.func.id in ('setattr', 'delattr') and len(n.args) >= 2:
+                a = n.args[1]
+                stored_attrs.add(a.value if isinstance(a, ast.Constant) and isinstance(a.value, str) else '*')
+        a = fn.args
+        params = {x.arg for x in a.posonlyargs + a.args + a.kwonlyargs + ([a.vararg] if a.vararg else []) + ([a.kwarg] if a.kwarg else [])}
+
+        def stable_name(nm):
+            return (nm in params and stores.get(nm, 0) == 0) or stores.get(nm, 0) == 1 or (nm not in params and nm not in stores)
+
+        def pure(e):
+            if isinstance(e, ast.Constant):
+                return True
+            if isinstance(e, ast.Name):
+                return stable_name(e.id)
+            if isinstance(e, ast.Attribute):
+                if '*' in stored_attrs or e.attr in stored_attrs:
+                    return False
+                return pure(e.value)
+            if isinstance(e, ast.Compare):
+                return pure(e.left) and all(pure(c) for c in e.comparators)
+            if isinstance(e, ast.BoolOp):
+                return all(pure(v) for v in e.values)
+            if isinstance(e, ast.UnaryOp) and isinstance(e.op, ast.Not):
+                return pure(e.operand)
+            return False
+
+        def blocks(node):
+            for fld in ('body', 'orelse', 'finalbody'):
+                v = getattr(node, fld, None)
+                if isinstance(v, list) and v and isinstance(v[0], ast.stmt):
+                    yield v
+            if isinstance(node, ast.Try):
+                for h in node.handlers:
+                    yield h.body
+
+        def visit_block(stmts):
+            for i, s in enumerate(stmts):
+                if isinstance(s, (ast.FunctionDef, ast.AsyncFunctionDef, ast.ClassDef)):
+                    continue
+                if (isinstance(s, ast.Assign) and len(s.targets) == 1 and isinstance(s.targets[0], ast.Name)
+                        and stores.get(s.targets[0].id) == 1 and s.targets[0].id not in params and s.targets[0].id not in nested_names
+                        and self._wanted(s.value) and pure(s.value)):
+                    v = s.targets[0].id
+                    # every use must lie in the statements that follow in this very block
+                    later = set()
+                    for t in stmts[i + 1:]:
+                        for x in ast.walk(t):
+                            if isinstance(x, ast.Name) and x.id == v:
+                                later.add(id(x))
+                    total = sum(1 for x in self._local_nodes(fn) if isinstance(x, ast.Name) and x.id == v and isinstance(x.ctx, ast.Load))
+                    if total and total == len(later):
+                        sub = _SubstName(v, s.value)
+                        for j in range(i + 1, len(stmts)):
+                            stmts[j] = sub.visit(stmts[j])
+                for b in blocks(s):
+                    visit_block(b)
+        visit_block(fn.body)
+
+
+class _SubstName(ast.NodeTransformer):
+    def __init__(self, name, expr):
+        self.name, self.expr = name, expr
+
+    def visit_Name(self, node):
+        if node.id == self.name and isinstance(node.ctx, ast.Load):
+            import copy
+            new = copy.deepcopy(self.expr)
+            for x in ast.walk(new):
+                ast.copy_location(x, node)
+            return new
+        return node
+
+
 class SourceSet:
     def __init__(self, root=None, overlay=None):
         self.root = root or DEFAULT_ROOT
@@ -117,6 +243,8 @@ class SourceSet:
                 t = ast.parse(self.text(rel), filename=rel)
             except SyntaxError as e:
                 raise AnalysisError('cannot parse %s: %s' % (rel, e))
+            t = _Canon().visit(t)
+            t = _AliasInline().run(t)
             t = _Canon().visit(t)
             for n in ast.walk(t):
                 for c in ast.iter_child_nodes(n):
